@@ -20,7 +20,8 @@ RULE = ("cases = corpus identities (fixed across configurations) ; evaluations =
 ASSUMPTIONS = [
     "API the library itself gates on the language level (OIndex einsum) is compared across C++17 configurations only",
     "a case that is rejected, or fails its owner's oracle, identically in every configuration is the owning property's finding, not a configuration dependence",
-    "float results are compared with the sum of the two configurations' own oracle bounds (0 for exact evaluations)",
+    "float results are compared with the sum of the two configurations' own oracle bounds (0 for exact evaluations); an element its owning check measured as "
+    "ill-conditioned on its data in either configuration (own bound infinite: C09, division by rounding noise) is counted and not compared",
     "macros outside the documented list and compilers other than the installed g++ 12 / clang 14 are not claimed",
 ]
 
@@ -158,7 +159,7 @@ def post(run):
     by_case = {}
     for (tag, cid), r in run.results.items():
         by_case.setdefault(cid, []).append(r)
-    stats = {"identities": len(by_case), "compared_pairs": 0, "consistent_reject": 0, "consistent_owner_failure": 0, "result_classes_max": 1, "value_cells_compared": 0}
+    stats = {"identities": len(by_case), "compared_pairs": 0, "consistent_reject": 0, "consistent_owner_failure": 0, "result_classes_max": 1, "value_cells_compared": 0, "ill_conditioned_cells_not_compared": 0}
     for cid, rs in by_case.items():
         rs = [r for r in rs if r.status != "not_run"]
         if len(rs) < 2:
@@ -209,6 +210,11 @@ def post(run):
                     bad = f"shape of dumped result differs ({na})"; break
                 for i, (p, q) in enumerate(zip(xa, xb)):
                     tol = (ea[i] if ea else 0.0) + (eb[i] if eb else 0.0)
+                    if tol == float("inf"):
+                        # the owning check measured this element as ill-conditioned on its data in at least one of the two configurations
+                        # (C09: a value that moves by a quarter under +-16u input perturbations): no rounding bound exists for it
+                        stats["ill_conditioned_cells_not_compared"] += 1
+                        continue
                     stats["value_cells_compared"] += 1
                     if p != p and q != q:
                         continue
